@@ -255,6 +255,24 @@ def run(ctx):
     from . import c20_width
     c20_width.run(ctx)
 
+    if ctx.want("R6"):
+        rs = ctx.rule("R6", "text-interface solver: the cost of handing over a maximally shared term follows its nodes, not its paths")
+        from . import solver_deep as sd
+        kind, data = sd.text_solver_cost(repo)
+        if kind != "ok":
+            rs.unrec("text solver cost: %s" % data)
+        else:
+            for api, (c4, c8, c12) in sorted(data.items()):
+                # nodes grow by 3 per level (linear): the increments are equal; with a tree walk they grow 16-fold
+                d1, d2 = c8 - c4, c12 - c8
+                if d2 > 2 * d1 + 200:
+                    ctx.finding(rs, "text-solver-cost|%s" % api, "SmtLibSolver.%s of a shared tower costs %d / %d / %d at depth 4 / 8 / 12: "
+                                "the increments grow (%d then %d) - the term is walked path by path before it reaches the solver"
+                                % (api, c4, c8, c12, d1, d2), "pysmt/smtlib/solver.py")
+                else:
+                    rs.ok({"call": api, "tower_depths": [4, 8, 12], "cost": [c4, c8, c12]})
+        ctx.floor(rs, 2)
+
     if ctx.want("R4"):
         rs = ctx.rule("R4", "real manager: the cost of one construction does not grow with the size of its operands")
         from . import mgr_deep
